@@ -153,6 +153,26 @@ func (c *checker) one(k uint64) ([]byte, *hist.Violation) {
 	if d != p {
 		return nil, viol("decode(encode(x)) for x = "+c.t.show(p)+" (encoding "+fmt.Sprintf("%x", e)+")", c.t.show(p), c.t.show(d))
 	}
+	// encodings are values of their own: a caller that appends the next field to one (tuple keys are built that
+	// way) must not change what any later call returns
+	if k%16 == 0 || c.t.width == 1 {
+		q := c.t.ord(k + 1)
+		var before, after, again []byte
+		if safely(func() { before = append([]byte(nil), c.t.enc(q)...) }) == "" {
+			keep := append([]byte(nil), e...)
+			grown := append(e, 0xa5, 0x5a)
+			_ = grown
+			pan = safely(func() { after = c.t.enc(q); again = c.t.enc(p) })
+			c.st.Evaluations++
+			if pan == "" && !bytes.Equal(before, after) {
+				return nil, viol("encode "+c.t.show(q)+" after a caller appended two bytes to the slice returned for "+c.t.show(p), fmt.Sprintf("%x", before), fmt.Sprintf("%x", after))
+			}
+			if pan == "" && !bytes.Equal(keep, again) {
+				return nil, viol("encode "+c.t.show(p)+" again after a caller appended two bytes to the slice returned before", fmt.Sprintf("%x", keep), fmt.Sprintf("%x", again))
+			}
+			e = keep
+		}
+	}
 	return e, nil
 }
 
